@@ -65,7 +65,7 @@ pub fn classify(msg: &str) -> &'static str {
         "limit-reached"
     } else if msg.contains("SignalRound") || msg.contains("signal") {
         "signal-round"
-    } else if msg.contains("not a declared target") || msg.contains("no transition taken") {
+    } else if msg.contains("not a declared target") || msg.contains("no transition taken") || msg.contains("sampled target") {
         "transition-target"
     } else if msg.contains("Scheduled") {
         "scheduling"
@@ -113,7 +113,8 @@ pub fn add_stats(out: &mut Out, s: &RuleStats) {
         signal_second_round,
         signal_carried_over,
         blocking_end_accounted,
-        time_backwards
+        time_backwards,
+        draws_checked
     );
 }
 
@@ -128,8 +129,12 @@ pub struct Lockstep<'a> {
 impl<'a> Lockstep<'a> {
     pub fn new(machines: &'a [Machine], pf: f64, bf: f64, start: VClock, rng: ScriptRng) -> Result<Self, String> {
         let a = Framework::new(machines, pf, bf, start, rng.clone()).map_err(|e| format!("new failed: {e}"))?;
-        let b = Framework::new(machines, pf, bf, start, rng).map_err(|e| format!("new failed: {e}"))?;
-        let reference = RefFw::new(machines, pf, bf, start, a.verif_log())?;
+        let b = Framework::new(machines, pf, bf, start, rng.clone()).map_err(|e| format!("new failed: {e}"))?;
+        let mut reference = RefFw::new(machines, pf, bf, start, a.verif_log())?;
+        if crate::refsem::only_transition_draws(machines) {
+            // the transition draws are the only consumers of randomness: the sampled targets are prescribed
+            reference.oracle = Some(crate::refsem::DrawOracle::Script(rng.clone()));
+        }
         Ok(Lockstep {
             a,
             b,
